@@ -12,8 +12,17 @@
 #include <stdatomic.h>
 
 #define M_THREADS_ASSERT(pool, ret) \
-    M_RET_ASSERT(pool->shutdown == SHUTDOWN_NO, -EPERM); \
-    M_RET_ASSERT(pool->init_state & INITED_STARTED, -EPERM);  
+    M_RET_ASSERT(pool->init_state & INITED_STARTED, -EPERM);
+
+/*
+ * To be used with the pool lock held, as pool->shutdown is always used behind the mutex:
+ * a task may well use the pool it runs on while m_thpool_free() is shutting it down.
+ */
+#define M_SHUTDOWN_ASSERT_LOCKED(pool) \
+    if (pool->shutdown != SHUTDOWN_NO) { \
+        pthread_mutex_unlock(&pool->lock); \
+        return -EPERM; \
+    }
 
 typedef enum {
     INITED_THREADS  = 0x01,     // threads are allocated
@@ -218,6 +227,7 @@ _public_ int m_thpool_add(m_thpool_t *pool, m_thpool_task task, void *arg) {
     if (ret) {
         return ret;
     }
+    M_SHUTDOWN_ASSERT_LOCKED(pool);
 
     /*
      * Lazy thread algorithm:
@@ -258,6 +268,7 @@ _public_ ssize_t m_thpool_length(m_thpool_t *pool) {
     if (ret) {
         return ret;
     }
+    M_SHUTDOWN_ASSERT_LOCKED(pool);
     
     ssize_t len = m_queue_len(pool->tasks);
     
@@ -277,6 +288,7 @@ _public_ ssize_t m_thpool_clear(m_thpool_t *pool) {
     if (ret) {
         return ret;
     }
+    M_SHUTDOWN_ASSERT_LOCKED(pool);
     
     ret = m_queue_clear(pool->tasks);
     
